@@ -19,7 +19,7 @@ ASSUMPTIONS = ['a plane with scalar amplitude, array OPD and no mask has no exte
 PLAN = {'quick': {'gen': 8}, 'thorough': {'gen': 16, 'tests': 1, 'docs': 1}}
 REQUIRED_BUCKETS = ['wf:many-fields', 'broadband', 'plane:reused', 'wf:chain-overlap', 'amp:scalar', 'amp:array', 'opd:scalar', 'opd:array', 'mask:none', 'mask:2d', 'mask:3d',
                     'amp:scalar+mask:array', 'wf:default', 'wf:chain', 'wf:multi-field', 'wf:overlapping-fields',
-                    'plane:default', 'pixelscale:mismatch', 'pixelscale:mismatch:scalar-plane', 'insert:weight0', 'insert:negative', 'pupil:focal']
+                    'plane:default', 'pixelscale:mismatch', 'pixelscale:mismatch:scalar-plane', 'insert:weight0', 'insert:negative', 'pupil:focal', 'outside-mask:non-finite', 'mask:narrow-float']
 REQUIRED_ANCHORS = ['probe:Plane.multiply', 'probe:Pupil.multiply', 'probe:Wavefront.field',
                     'probe:Wavefront.intensity', 'probe:Wavefront.insert']
 REQUIRED_ORACLES = ['multiply=phasor', 'multiply:meta', 'field=render', 'intensity=|field|^2', 'insert=weight*intensity',
@@ -84,7 +84,9 @@ def plane_phasor(plane, wavelength):
     # instruction to evaluate the phasor in single precision)
     A = np.asarray(A, dtype=complex if np.iscomplexobj(A) else float)
     O = np.asarray(O, dtype=float)
-    return A * np.exp(2j * np.pi * O / float(wavelength)) * g, S
+    # (zero outside the mask whatever the arrays hold there: NaN / inf fill values of measured maps included)
+    with np.errstate(all='ignore'):
+        return np.where(g != 0, A * np.exp(2j * np.pi * O / float(wavelength)), 0), S
 
 
 def multiply_before(ctx, args, kwargs):
@@ -505,6 +507,37 @@ def workload(ctx, lentil):
                 _touch_views(ctx, lentil, rng, p.multiply(w0))
         except Exception as e:
             ctx.check(False, 'multiply=phasor', f'reuse|raises={type(e).__name__}', str(e), {'shape': list(shape)})
+
+    # measured maps: NaN / inf (or a huge fill value) where there is no aperture, masks held in single / half precision with a scalar
+    # amplitude: the field is the phasor inside the mask and exactly zero outside it (online oracle)
+    for i in range(max(10, n // 8)):
+        shape = gen.rshape(rng, 5, 16)
+        A = gen.support(rng, shape, kind=int(rng.choice([0, 1, 3, 4])))
+        if A.all():
+            A[0, :] = False
+        wl = float(rng.uniform(4e-7, 1e-6))
+        opd = gen.opd(rng, shape, wl)
+        amp = gen.amplitude(rng, A)
+        kindf = i % 4
+        seg = i % 3 == 0
+        mask = gen.partition(rng, A, int(rng.integers(2, 4)))[0].astype(float) if seg else A.astype(float)
+        desc = {'outside-mask': ['opd=nan', 'amp=inf', 'opd=1e30', 'narrow-mask'][kindf], 'shape': list(shape), 'seg': seg}
+        ctx.case(desc, ['outside-mask:non-finite' if kindf < 3 else 'mask:narrow-float'])
+        try:
+            if kindf == 0:
+                pl = lentil.Pupil(amplitude=amp if i % 2 else 1.0, opd=np.where(A, opd, np.nan), mask=mask, pixelscale=1e-3, focal_length=2.0)
+            elif kindf == 1:
+                pl = lentil.Pupil(amplitude=np.where(A, np.abs(amp) + 0.1, np.inf), opd=opd, mask=mask, pixelscale=1e-3, focal_length=2.0)
+            elif kindf == 2:
+                pl = lentil.Pupil(amplitude=amp, opd=np.where(A, opd, 1e30), mask=mask, pixelscale=1e-3, focal_length=2.0)
+            else:
+                pl = lentil.Pupil(amplitude=float(rng.uniform(0.3, 1.7)), opd=opd, mask=mask.astype([np.float32, np.float16][(i // 4) % 2]),
+                                  pixelscale=1e-3, focal_length=2.0)
+            with np.errstate(all='ignore'):
+                wv = lentil.Wavefront(wl) * pl                  # online oracle
+                _touch_views(ctx, lentil, rng, wv)
+        except Exception as e:
+            ctx.check(False, 'multiply=phasor', f'outside-mask|raises={type(e).__name__}', str(e), desc)
 
     # broadband loops: the same plane objects meet wavefronts of different wavelengths one after the other (and again the
     # first wavelength at the end); argument forms of pixelscale (float, tuple, list, ndarray)
